@@ -808,6 +808,48 @@ func (g *goc) compileCall(x *ast.CallExpr) (string, error) {
 			return "", err
 		}
 		return "b" + id.Name + "(" + strings.Join(a, ", ") + ")", nil
+	case "samefields":
+		a, err := g.compileRaw(x.Args[0])
+		if err != nil {
+			return "", err
+		}
+		bb, err := g.compileRaw(x.Args[1])
+		if err != nil {
+			return "", err
+		}
+		av, err := g.env.eval(x.Args[0])
+		if err != nil {
+			return "", err
+		}
+		excl := map[string]bool{}
+		for _, ex := range x.Args[2:] {
+			excl[exprStr(ex)] = true
+		}
+		t := av.Typ
+		if pt, ok := t.Underlying().(*types.Pointer); ok {
+			t = pt.Elem()
+		}
+		var cs []string
+		var walk func(pa, pb string, t types.Type)
+		walk = func(pa, pb string, t types.Type) {
+			st := t.Underlying().(*types.Struct)
+			for i := 0; i < st.NumFields(); i++ {
+				f := st.Field(i)
+				if excl[f.Name()] {
+					continue
+				}
+				if _, isStruct := f.Type().Underlying().(*types.Struct); isStruct {
+					walk(pa+"."+f.Name(), pb+"."+f.Name(), f.Type())
+					continue
+				}
+				cs = append(cs, fmt.Sprintf("(%s.%s == %s.%s)", pa, f.Name(), pb, f.Name()))
+			}
+		}
+		walk(a, bb, t)
+		if len(cs) == 0 {
+			return "true", nil
+		}
+		return "(" + strings.Join(cs, " && ") + ")", nil
 	case "isnil":
 		s, err := g.compileRaw(x.Args[0])
 		if err != nil {
